@@ -170,7 +170,10 @@ class _STIXBase(collections.abc.Mapping):
                                 {},
                             ),
                         )
-                    else:
+                    elif "extensions" in self._properties:
+                        # Only where the type has an "extensions" property
+                        # (whose clean() then vets the extension id) can an
+                        # unregistered extension vouch for extra properties.
                         has_unregistered_toplevel_extension = True
 
         if has_unregistered_toplevel_extension:
